@@ -1,10 +1,344 @@
-(* C15: proofs about Model/Store.v *)
+(* C15: proofs about Model/Store.v, part 1: strings, zero-padded decimal keys, listing order,
+   strided lengths.  (Buffers, schedules and the load theorems are in StoreLoadProofs.v.) *)
 From Coq Require Import List ZArith Lia Bool Permutation Sorted.
 From EV Require Import PySlice Store.
 Import ListNotations.
 Open Scope nat_scope.
 
+(* ------------------------------------------------------------------ lexicographic order *)
 Lemma lex_ltb_irrefl : forall a, lex_ltb a a = false.
 Proof.
   induction a as [|x a IH]; [reflexivity|]. cbn [lex_ltb]. rewrite Nat.ltb_irrefl. exact IH.
+Qed.
+
+Lemma lex_ltb_asym : forall a b, lex_ltb a b = true -> lex_ltb b a = false.
+Proof.
+  induction a as [|x a IH]; intros [|y b] H; cbn [lex_ltb] in *; try congruence.
+  destruct (x <? y) eqn:Exy.
+  - apply Nat.ltb_lt in Exy.
+    assert (E : (y <? x) = false) by (apply Nat.ltb_ge; lia). rewrite E. reflexivity.
+  - destruct (y <? x) eqn:Eyx; [discriminate|]. apply IH. exact H.
+Qed.
+
+Lemma lex_ltb_trans : forall a b c, lex_ltb a b = true -> lex_ltb b c = true -> lex_ltb a c = true.
+Proof.
+  induction a as [|x a IH]; intros [|y b] [|z c] H1 H2; cbn [lex_ltb] in *; try congruence.
+  destruct (x <? y) eqn:Exy; destruct (y <? z) eqn:Eyz.
+  - apply Nat.ltb_lt in Exy, Eyz. assert (E : (x <? z) = true) by (apply Nat.ltb_lt; lia).
+    rewrite E. reflexivity.
+  - destruct (z <? y) eqn:Ezy; [discriminate|]. apply Nat.ltb_lt in Exy.
+    apply Nat.ltb_ge in Eyz, Ezy. assert (E : (x <? z) = true) by (apply Nat.ltb_lt; lia).
+    rewrite E. reflexivity.
+  - destruct (y <? x) eqn:Eyx; [discriminate|]. apply Nat.ltb_lt in Eyz.
+    apply Nat.ltb_ge in Exy, Eyx. assert (E : (x <? z) = true) by (apply Nat.ltb_lt; lia).
+    rewrite E. reflexivity.
+  - destruct (y <? x) eqn:Eyx; [discriminate|]. destruct (z <? y) eqn:Ezy; [discriminate|].
+    apply Nat.ltb_ge in Exy, Eyx, Eyz, Ezy. assert (x = z) by lia. subst z.
+    rewrite Nat.ltb_irrefl. apply (IH b c); assumption.
+Qed.
+
+(* two different strings are ordered one way or the other *)
+Lemma lex_ltb_total : forall a b, lex_ltb a b = false -> lex_ltb b a = false -> a = b.
+Proof.
+  induction a as [|x a IH]; intros [|y b] H1 H2; cbn [lex_ltb] in *; try congruence.
+  destruct (x <? y) eqn:Exy; [discriminate|]. destruct (y <? x) eqn:Eyx; [discriminate|].
+  apply Nat.ltb_ge in Exy, Eyx. assert (x = y) by lia. subst y. f_equal. apply IH; assumption.
+Qed.
+
+Lemma lex_ltb_prefix : forall p a b, lex_ltb (p ++ a) (p ++ b) = lex_ltb a b.
+Proof.
+  induction p as [|x p IH]; intros a b; [reflexivity|].
+  cbn [app lex_ltb]. rewrite Nat.ltb_irrefl. apply IH.
+Qed.
+
+Lemma lex_ltb_map_mono (f : nat -> nat) :
+  (forall x y, x < y -> f x < f y) ->
+  forall a b, lex_ltb (map f a) (map f b) = lex_ltb a b.
+Proof.
+  intros Hf. induction a as [|x a IH]; intros [|y b]; cbn [map lex_ltb]; try reflexivity.
+  destruct (x <? y) eqn:Exy.
+  - apply Nat.ltb_lt in Exy. apply Hf in Exy. apply Nat.ltb_lt in Exy. rewrite Exy. reflexivity.
+  - destruct (y <? x) eqn:Eyx.
+    + apply Nat.ltb_lt in Eyx. pose proof (Hf _ _ Eyx) as Hlt.
+      assert (E1 : (f x <? f y) = false) by (apply Nat.ltb_ge; lia).
+      assert (E2 : (f y <? f x) = true) by (apply Nat.ltb_lt; lia).
+      rewrite E1, E2. reflexivity.
+    + apply Nat.ltb_ge in Exy, Eyx. assert (x = y) by lia. subst y.
+      rewrite Nat.ltb_irrefl. apply IH.
+Qed.
+
+Lemma str_eqb_eq : forall a b, str_eqb a b = true <-> a = b.
+Proof.
+  induction a as [|x a IH]; intros [|y b]; cbn [str_eqb]; split; intros H; try congruence; try reflexivity.
+  - apply andb_true_iff in H. destruct H as [H1 H2]. apply Nat.eqb_eq in H1. apply IH in H2. congruence.
+  - injection H as -> ->. rewrite Nat.eqb_refl. apply IH. reflexivity.
+Qed.
+
+(* ------------------------------------------------------------------ decimal numerals *)
+(* value of a digit string, most significant digit first *)
+Fixpoint val (l : list nat) : nat :=
+  match l with
+  | [] => 0
+  | x :: r => x * 10 ^ length r + val r
+  end.
+
+Lemma pow10_pos : forall n, 0 < 10 ^ n.
+Proof. intros n. induction n as [|n IH]; cbn [Nat.pow]; lia. Qed.
+
+Lemma val_bound : forall l, Forall (fun d => d < 10) l -> val l < 10 ^ length l.
+Proof.
+  induction l as [|x l IH]; intros H; cbn [val length Nat.pow]; [lia|].
+  inversion H as [|? ? Hx Hl]; subst. specialize (IH Hl). pose proof (pow10_pos (length l)). nia.
+Qed.
+
+Lemma digits_fuel_val : forall fuel n acc,
+  n < fuel -> val (digits_fuel fuel n acc) = n * 10 ^ length acc + val acc.
+Proof.
+  induction fuel as [|f IH]; intros n acc Hn; [lia|].
+  cbn [digits_fuel]. destruct (n <? 10) eqn:E.
+  - reflexivity.
+  - apply Nat.ltb_ge in E.
+    assert (Hd : n / 10 < f).
+    { assert (n / 10 < n) by (apply Nat.div_lt; lia). lia. }
+    rewrite (IH _ _ Hd). cbn [val length Nat.pow].
+    pose proof (Nat.div_mod n 10) as Hdm.
+    assert (Hn' : n = 10 * (n / 10) + n mod 10) by (apply Hdm; lia).
+    rewrite Hn' at 3. nia.
+Qed.
+
+Lemma digits_fuel_lt10 : forall fuel n acc,
+  Forall (fun d => d < 10) acc -> Forall (fun d => d < 10) (digits_fuel fuel n acc).
+Proof.
+  induction fuel as [|f IH]; intros n acc H; [exact H|].
+  cbn [digits_fuel]. destruct (n <? 10) eqn:E.
+  - apply Nat.ltb_lt in E. constructor; assumption.
+  - apply IH. constructor; [|exact H]. apply Nat.mod_upper_bound. lia.
+Qed.
+
+Lemma digits_fuel_len_ge : forall fuel n acc,
+  0 < fuel -> S (length acc) <= length (digits_fuel fuel n acc).
+Proof.
+  induction fuel as [|f IH]; intros n acc H; [lia|].
+  cbn [digits_fuel]. destruct (n <? 10) eqn:E; [cbn [length]; lia|].
+  destruct f as [|f'].
+  - cbn [digits_fuel length]. lia.
+  - specialize (IH (n / 10) (n mod 10 :: acc)). cbn [length] in IH. lia.
+Qed.
+
+Lemma digits_fuel_len_mono : forall f1 f2 i n acc1 acc2,
+  i <= n -> i < f1 -> n < f2 -> length acc1 = length acc2 ->
+  length (digits_fuel f1 i acc1) <= length (digits_fuel f2 n acc2).
+Proof.
+  induction f1 as [|f1 IH]; intros f2 i n acc1 acc2 Hin Hi Hn Hacc; [lia|].
+  destruct f2 as [|f2]; [lia|]. cbn [digits_fuel].
+  destruct (i <? 10) eqn:Ei.
+  - destruct (n <? 10) eqn:En; [cbn [length]; lia|].
+    apply Nat.ltb_ge in En.
+    assert (Hf : 0 < f2).
+    { assert (0 < n / 10) by (apply Nat.div_str_pos; lia).
+      assert (n / 10 < n) by (apply Nat.div_lt; lia). lia. }
+    pose proof (digits_fuel_len_ge f2 (n / 10) (n mod 10 :: acc2) Hf) as Hge.
+    cbn [length] in *. lia.
+  - apply Nat.ltb_ge in Ei. assert (En : (n <? 10) = false) by (apply Nat.ltb_ge; lia).
+    rewrite En. apply IH.
+    + apply Nat.div_le_mono; lia.
+    + assert (i / 10 < i) by (apply Nat.div_lt; lia). lia.
+    + assert (n / 10 < n) by (apply Nat.div_lt; lia). lia.
+    + cbn [length]. lia.
+Qed.
+
+Lemma digits_val : forall n, val (digits n) = n.
+Proof. intros n. unfold digits. rewrite digits_fuel_val by lia. cbn [length Nat.pow val]. lia. Qed.
+
+Lemma digits_lt10 : forall n, Forall (fun d => d < 10) (digits n).
+Proof. intros n. apply digits_fuel_lt10. constructor. Qed.
+
+Lemma digits_len_mono : forall i n, i <= n -> length (digits i) <= length (digits n).
+Proof. intros i n H. unfold digits. apply digits_fuel_len_mono; try lia; reflexivity. Qed.
+
+Lemma digits_len_pos : forall n, 1 <= length (digits n).
+Proof. intros n. unfold digits. pose proof (digits_fuel_len_ge (S n) n [] ltac:(lia)). cbn [length] in *. lia. Qed.
+
+(* equal-width digit strings order like the numbers they denote *)
+Lemma lex_ltb_val : forall a b,
+  length a = length b -> Forall (fun d => d < 10) a -> Forall (fun d => d < 10) b ->
+  (lex_ltb a b = true <-> val a < val b).
+Proof.
+  induction a as [|x a IH]; intros [|y b] Hlen Ha Hb; cbn [length] in Hlen; try discriminate.
+  - cbn. split; [discriminate|lia].
+  - inversion Ha as [|? ? Hx Ha']; inversion Hb as [|? ? Hy Hb']; subst.
+    injection Hlen as Hlen. specialize (IH b Hlen Ha' Hb').
+    pose proof (val_bound a Ha') as Ba. pose proof (val_bound b Hb') as Bb.
+    cbn [lex_ltb val]. rewrite <- Hlen in *. set (P := 10 ^ length a) in *.
+    destruct (x <? y) eqn:Exy.
+    + apply Nat.ltb_lt in Exy. split; [intros _; nia|reflexivity].
+    + destruct (y <? x) eqn:Eyx.
+      * apply Nat.ltb_lt in Eyx. split; [discriminate|nia].
+      * apply Nat.ltb_ge in Exy, Eyx. assert (x = y) by lia. subst y.
+        rewrite IH. lia.
+Qed.
+
+Lemma val_zeros : forall k l, val (repeat 0 k ++ l) = val l.
+Proof. induction k as [|k IH]; intros l; [reflexivity|]. cbn [repeat app val]. rewrite IH. lia. Qed.
+
+(* zfill at the level of digits *)
+Definition zfill_d (w : nat) (ds : list nat) : list nat := repeat 0 (w - length ds) ++ ds.
+
+Lemma zfill_digits : forall w ds, zfill w (map chr_digit ds) = map chr_digit (zfill_d w ds).
+Proof.
+  intros w ds. unfold zfill, zfill_d. rewrite map_app, map_length. f_equal.
+  induction (w - length ds) as [|k IH]; [reflexivity|]. cbn [repeat map]. rewrite <- IH. reflexivity.
+Qed.
+
+Lemma zfill_d_length : forall w ds, length ds <= w -> length (zfill_d w ds) = w.
+Proof. intros w ds H. unfold zfill_d. rewrite app_length, repeat_length. lia. Qed.
+
+Lemma zfill_d_lt10 : forall w ds, Forall (fun d => d < 10) ds -> Forall (fun d => d < 10) (zfill_d w ds).
+Proof.
+  intros w ds H. unfold zfill_d. apply Forall_app. split; [|exact H].
+  induction (w - length ds) as [|k IH]; cbn [repeat]; constructor; [lia|exact IH].
+Qed.
+
+Lemma key_split : forall tag w i,
+  key tag w i = (tag ++ [95]) ++ map chr_digit (zfill_d w (digits i)).
+Proof.
+  intros tag w i. unfold key, str_of_nat. rewrite zfill_digits, <- app_assoc. reflexivity.
+Qed.
+
+(* the heart of the matter: for any common width that fits the larger number, the zero-padded
+   names of i < j compare like i and j *)
+Lemma key_lt_width : forall tag w i j,
+  i < j -> length (digits j) <= w -> lex_ltb (key tag w i) (key tag w j) = true.
+Proof.
+  intros tag w i j Hij Hw. rewrite !key_split, lex_ltb_prefix.
+  rewrite lex_ltb_map_mono by (intros x y Hxy; unfold chr_digit; lia).
+  pose proof (digits_len_mono i j ltac:(lia)) as Hi.
+  apply lex_ltb_val.
+  - rewrite !zfill_d_length by lia. reflexivity.
+  - apply zfill_d_lt10, digits_lt10.
+  - apply zfill_d_lt10, digits_lt10.
+  - unfold zfill_d. rewrite !val_zeros, !digits_val. exact Hij.
+Qed.
+
+(* ... and the width save picks, len(str(n)) + 1, fits every row number below n (indeed n itself) *)
+Lemma keys_lt : forall tag n i j,
+  i < j -> j < n -> lex_ltb (key tag (n_zeros n) i) (key tag (n_zeros n) j) = true.
+Proof.
+  intros tag n i j Hij Hjn. apply key_lt_width; [exact Hij|].
+  unfold n_zeros, str_of_nat. rewrite map_length.
+  pose proof (digits_len_mono j n ltac:(lia)). lia.
+Qed.
+
+Lemma key_inj_width : forall tag w i j,
+  length (digits i) <= w -> length (digits j) <= w -> key tag w i = key tag w j -> i = j.
+Proof.
+  intros tag w i j Hi Hj E.
+  destruct (Nat.lt_trichotomy i j) as [H | [H | H]]; [|exact H|].
+  - pose proof (key_lt_width tag w i j H Hj) as L. rewrite E, lex_ltb_irrefl in L. discriminate.
+  - pose proof (key_lt_width tag w j i H Hi) as L. rewrite E, lex_ltb_irrefl in L. discriminate.
+Qed.
+
+Definition str_lt (a b : str) : Prop := lex_ltb a b = true.
+
+Lemma keys_strongly_sorted_from : forall tag w m k,
+  (forall j, j < k + m -> length (digits j) <= w) ->
+  StronglySorted str_lt (map (key tag w) (seq k m)).
+Proof.
+  intros tag w m. induction m as [|m IH]; intros k Hw; cbn [seq map]; [constructor|].
+  constructor.
+  - apply IH. intros j Hj. apply Hw. lia.
+  - apply Forall_forall. intros s Hs. apply in_map_iff in Hs. destruct Hs as [j [<- Hj]].
+    apply in_seq in Hj. apply key_lt_width; [lia|]. apply Hw. lia.
+Qed.
+
+Lemma n_zeros_fits : forall n j, j < n -> length (digits j) <= n_zeros n.
+Proof.
+  intros n j H. unfold n_zeros, str_of_nat. rewrite map_length.
+  pose proof (digits_len_mono j n ltac:(lia)). lia.
+Qed.
+
+Lemma keys_strongly_sorted : forall tag n,
+  StronglySorted str_lt (map (key tag (n_zeros n)) (seq 0 n)).
+Proof. intros tag n. apply keys_strongly_sorted_from. intros j Hj. apply n_zeros_fits. lia. Qed.
+
+(* ------------------------------------------------------------------ listing order *)
+Lemma sort_sorted_id : forall l, StronglySorted str_lt l -> sort_keys l = l.
+Proof.
+  induction l as [|h t IH]; intros H; [reflexivity|].
+  inversion H as [|? ? Ht Hh]; subst. cbn [sort_keys fold_right]. fold (sort_keys t). rewrite (IH Ht).
+  destruct t as [|h2 t2]; [reflexivity|]. cbn [insert_key].
+  inversion Hh as [|? ? Hlt _]; subst. unfold str_lt in Hlt.
+  rewrite (lex_ltb_asym _ _ Hlt). reflexivity.
+Qed.
+
+Lemma insert_key_perm : forall k l, Permutation (k :: l) (insert_key k l).
+Proof.
+  intros k l. induction l as [|h t IH]; cbn [insert_key]; [apply Permutation_refl|].
+  destruct (lex_ltb h k); [|apply Permutation_refl].
+  eapply Permutation_trans; [apply perm_swap|]. apply perm_skip. exact IH.
+Qed.
+
+Lemma sort_keys_perm : forall l, Permutation l (sort_keys l).
+Proof.
+  induction l as [|h t IH]; [constructor|]. cbn [sort_keys fold_right]. fold (sort_keys t).
+  eapply Permutation_trans; [apply perm_skip; exact IH|]. apply insert_key_perm.
+Qed.
+
+(* weak order: not (b < a) *)
+Definition str_le (a b : str) : Prop := lex_ltb b a = false.
+
+Lemma insert_key_sorted : forall k l, Sorted str_le l -> Sorted str_le (insert_key k l).
+Proof.
+  intros k l. induction l as [|h t IH]; intros H; cbn [insert_key].
+  - repeat constructor.
+  - destruct (lex_ltb h k) eqn:E.
+    + inversion H as [|? ? Ht Hh]; subst. constructor; [apply IH; exact Ht|].
+      destruct t as [|h2 t2]; cbn [insert_key].
+      * constructor. unfold str_le. apply lex_ltb_asym. exact E.
+      * destruct (lex_ltb h2 k) eqn:E2.
+        -- constructor. inversion Hh; subst. assumption.
+        -- constructor. unfold str_le. apply lex_ltb_asym. exact E.
+    + constructor; [exact H|]. constructor. unfold str_le. exact E.
+Qed.
+
+Lemma sort_keys_sorted : forall l, Sorted str_le (sort_keys l).
+Proof.
+  induction l as [|h t IH]; [constructor|]. cbn [sort_keys fold_right]. fold (sort_keys t).
+  apply insert_key_sorted. exact IH.
+Qed.
+
+Lemma str_le_trans : forall a b c, str_le a b -> str_le b c -> str_le a c.
+Proof.
+  unfold str_le. intros a b c H1 H2. destruct (lex_ltb c a) eqn:E; [|reflexivity].
+  (* c < a, not b < a, so ... *)
+  destruct (lex_ltb a b) eqn:Eab.
+  - pose proof (lex_ltb_trans _ _ _ E Eab) as T. congruence.
+  - pose proof (lex_ltb_total _ _ Eab H1) as ->. congruence.
+Qed.
+
+(* a weakly sorted list and a strictly sorted list with the same elements are equal *)
+Lemma sorted_perm_unique : forall l L,
+  Sorted str_le l -> StronglySorted str_lt L -> Permutation l L -> l = L.
+Proof.
+  intros l L Hl. apply Sorted_StronglySorted in Hl; [|intros a b c; apply str_le_trans].
+  revert L. induction Hl as [|h t Ht IH Hh]; intros L HL HP.
+  - apply Permutation_nil in HP. subst. reflexivity.
+  - destruct L as [|H T]; [apply Permutation_sym, Permutation_nil in HP; discriminate|].
+    inversion HL as [|? ? HT HH]; subst.
+    assert (Ehh : h = H).
+    { assert (I1 : In h (H :: T)) by (eapply Permutation_in; [exact HP|left; reflexivity]).
+      assert (I2 : In H (h :: t))
+        by (eapply Permutation_in; [apply Permutation_sym; exact HP|left; reflexivity]).
+      destruct I1 as [->|I1]; [reflexivity|]. destruct I2 as [->|I2]; [reflexivity|].
+      rewrite Forall_forall in Hh, HH. pose proof (Hh _ I2) as A. pose proof (HH _ I1) as B.
+      unfold str_le, str_lt in *. congruence. }
+    subst H. f_equal. apply IH; [exact HT|]. eapply Permutation_cons_inv. exact HP.
+Qed.
+
+(* whatever order the file holds its nodes in, listing a strictly sortable set gives the sorted list *)
+Lemma sort_keys_of_perm : forall l L,
+  Permutation l L -> StronglySorted str_lt L -> sort_keys l = L.
+Proof.
+  intros l L HP HL. apply sorted_perm_unique; [apply sort_keys_sorted|exact HL|].
+  eapply Permutation_trans; [apply Permutation_sym, sort_keys_perm|exact HP].
 Qed.
